@@ -53,7 +53,6 @@ def siteTable : List (Gen.Site × Disposition × String) := [
   (⟨"attr.rs", "get_ident", "unreachable!(\"16\")"⟩, .modelled, "attr.rs:GhostIdent::get_ident:unreachable(16)"),
   (⟨"attr.rs", "get_child_path_str", "index(self . child_path_str [depth])"⟩, .modelled, "attr.rs:ChildPath::get_child_path_str:index"),
   (⟨"attr.rs", "get_for_kind", "index(x . applicable_to [kind])"⟩, .total, "[bool; 6] indexed through `impl Index<&Kind>`: every Kind maps to 0..5"),
-  (⟨"attr.rs", "get_member_attrs", "unreachable!(\"1\")"⟩, .modelled, "attr.rs:get_member_attrs:unreachable(1)"),
   (⟨"attr.rs", "try_parse_container_ident", "unwrap(input . parse :: < Token ! [|] > ())"⟩, .guarded, "preceded by a successful `peek` of the same token"),
   (⟨"attr.rs", "try_parse_optional_ident", "unwrap(input . parse :: < Token ! [,] > ())"⟩, .guarded, "preceded by a successful `peek` of the same token"),
   (⟨"attr.rs", "try_parse_optional_ident", "unwrap(fork . parse :: < Member > ())"⟩, .guarded, "preceded by a successful `peek` of the same token"),
@@ -253,6 +252,27 @@ theorem C16_site_17_unreachable (e : Enum) (hv : validate (.enum e) = []) (ga : 
       rw [hv] at this
       cases this
 
+/-! ### `unreachable!("16")`: a destructuring pattern in struct-level / variant-level `#[ghosts]` (since fix 54c4df8 reported) -/
+
+/-- C16 (site `GhostIdent::get_ident:unreachable(16)`, struct level): in a struct that validation accepts every entry of
+    every type-level `#[ghosts]` instruction names a member, so `get_ident` answers for it -/
+theorem C16_site_16_struct (s : Struct) (hv : validate (.struct s) = []) (ga : GhostsAttr) (hga : ga ∈ s.attrs.ghostsAttrs)
+    (g : GhostData) (hg : g ∈ ga.attr.ghostData) : ∃ m, g.ghostIdent.getIdent = .ok m := by
+  cases hid : g.ghostIdent with
+  | member m => exact ⟨m, rfl⟩
+  | destruction d =>
+    exfalso
+    have hmem : g ∈ (DataType.struct s).attrs.ghostsAttrs.flatMap (fun x => x.attr.ghostData) :=
+      List.mem_flatMap.mpr ⟨ga, hga, hg⟩
+    have : "Struct-level #[ghosts(...)] should name a member of the other type, not a pattern." ∈ validate (.struct s) := by
+      unfold validate validateEnd
+      simp only
+      apply ext_validateFields
+      exact mem_foldl_of_step _ _ _ _ g hmem (fun y es hm => ext_ghostPatternPass _ y es _ hm)
+        (fun es => by unfold ghostPatternPass; simp only [hid]; exact mem_insert_self _ _)
+    rw [hv] at this
+    cases this
+
 /-! ### `unreachable!("2")` / `("15")` through `as Unit` on a `#[child_parents]` entry (since fix 978c78a reported) -/
 
 def unitHintMsg : String :=
@@ -313,21 +333,79 @@ theorem C16_child_hint_not_unit (input : DataType) (hv : validate input = [])
       (validateKinds.foldl (fun es k => validateGhostAttrs k input.attrs.ghostsAttrs (input.attrs.attrs.map (·.core.ty)) es)
         (validateKinds.foldl (fun es k => validateStructAttrs (input.attrs.iterForKindCore k true) true es)
           (validateKinds.foldl (fun es k => validateStructAttrs (input.attrs.iterForKindCore k false) false es)
-            (validateErrorInstrs (match input with | .enum _ => true | .struct _ => false) input.attrs.errorInstrs
+            (validateErrorInstrs input.isEnum input.attrs.errorInstrs
               (if input.attrs.attrs.isEmpty then ["At least one trait instruction is expected."] else [])))))
       ca hca cd hcd hu
     have h3 := ext_validateWhereAttrs input.attrs.whereAttrs (input.attrs.attrs.map (·.core.ty)) _ _ h2
     have h3' := mem_foldl_of_mem (attrsByKind input.attrs) (updatePass input) _ _ (fun x es hm => ext_updatePass input x es _ hm) h3
     have h4 := mem_foldl_of_mem input.members
-      (validateMember input (match input with | .enum _ => true | .struct _ => false) (input.attrs.attrs.map (·.core.ty)) (attrsByKind input.attrs)) _ _
+      (validateMember input input.isEnum (input.attrs.attrs.map (·.core.ty)) (attrsByKind input.attrs)) _ _
       (fun member es hm => ext_validateMember _ _ _ _ member es _ hm) h3'
-    cases input with
-    | struct s => exact ext_validateFields _ _ _ _ _ h4
-    | enum e =>
-      have h5 := mem_foldl_of_mem ((DataType.enum e).attrs.ghostsAttrs.flatMap (fun x => x.attr.ghostData)) (fun es g => enumGhostIdentPass g es) _ _
-        (fun g es hm => enumGhostIdentPass_ext g es _ hm) h4
-      exact mem_foldl_of_mem _ _ _ _ (fun v es hm => ext_validateVariantFields v _ es _ hm) h5
+    exact ext_validateEnd input _ _ _ _ h4
   rw [hv] at this
   cases this
 
+/-! ### the two `unwrap()`s of `render_child_fragment` for struct-level ghosts addressed to a nested struct -/
+
+/-- what `check_child_errors` says about one level of a path -/
+def childLevelMsg (dta : DataTypeAttrs) (tp : TypePath) (path : String) : Option String :=
+  match dta.childParentsAttr tp with
+  | some ca => if !ca.childParents.any (fun x => x.fieldPathStr == path) then some ("Missing '" ++ path ++ ": [Type Path]' instruction for type " ++ tp.pathStr) else none
+  | none => some ("Missing #[child_parents(...)] instruction for " ++ tp.pathStr)
+
+theorem checkChildPath_reports (cp : ChildPath) (dta : DataTypeAttrs) (tp : TypePath) (path : String) (hp : path ∈ cp.strs)
+    (msg : String) (hm : childLevelMsg dta tp path = some msg) (es : Errors) : msg ∈ checkChildPathErrors cp dta tp es := by
+  unfold checkChildPathErrors
+  simp only
+  refine mem_foldl_of_step _ _ _ _ path hp (fun y es hm => ?_) (fun es => ?_)
+  · split
+    · split
+      · exact mem_insert_of_mem _ _ _ hm
+      · exact hm
+    · exact mem_insert_of_mem _ _ _ hm
+  · unfold childLevelMsg at hm
+    cases hc : dta.childParentsAttr tp with
+    | none => simp only [hc, Option.some.injEq] at hm; subst hm; simp only; exact mem_insert_self _ _
+    | some ca =>
+      simp only [hc] at hm
+      simp only
+      split at hm
+      · rename_i hany
+        simp only [Option.some.injEq] at hm; subst hm
+        simp only [hany, if_true]
+        exact mem_insert_self _ _
+      · cases hm
+
+/-- C16 (sites `render_child_fragment: child_parents_attr(..).unwrap()` and `.find(..).unwrap()` for struct-level ghosts, since
+    fix a4ff391): in a struct that validation accepts, every level of the path a type-level ghost of an Into conversion is
+    addressed to has its `#[child_parents]` entry -/
+theorem C16_ghost_child_paths_declared (s : Struct) (hv : validate (.struct s) = [])
+    (a : TraitAttrCore) (k : Kind) (hx : (a, k) ∈ attrsByKind s.attrs) (hf : k.isFrom = false) (he : k.isIntoExisting = false)
+    (ga : StructGhostAttrCore) (hga : s.attrs.ghostsAttr a.ty k = some ga) (g : GhostData) (hg : g ∈ ga.ghostData)
+    (cp : ChildPath) (hcp : g.childPath = some cp) (path : String) (hp : path ∈ cp.strs) :
+    childLevelMsg s.attrs a.ty path = none := by
+  cases hm : childLevelMsg s.attrs a.ty path with
+  | none => rfl
+  | some msg =>
+    exfalso
+    have hcpm : cp ∈ ga.ghostData.filterMap (·.childPath) := List.mem_filterMap.mpr ⟨g, hg, hcp⟩
+    have : msg ∈ validate (.struct s) := by
+      unfold validate validateEnd
+      simp only
+      unfold validateFields
+      simp only
+      have hstep : ∀ es, msg ∈ ghostChildPass (DataType.struct s).attrs es (a, k) := by
+        intro es
+        unfold ghostChildPass
+        simp only [hf, he, Bool.not_false, Bool.and_self, if_true]
+        have hga' : (DataType.struct s).attrs.ghostsAttr a.ty k = some ga := hga
+        simp only [hga']
+        exact mem_foldl_of_step _ _ _ _ cp hcpm (fun y es hm => ext_checkChildPathErrors y _ _ es _ hm)
+          (fun es => checkChildPath_reports cp _ a.ty path hp msg hm es)
+      split
+      · refine mem_foldl_of_mem _ _ _ _ (fun x es hm => ext_namePass s x.1 x.2 es _ hm) ?_
+        exact mem_foldl_of_step _ _ _ _ (a, k) hx (fun y es hm => ext_ghostChildPass _ y es _ hm) hstep
+      · exact mem_foldl_of_step _ _ _ _ (a, k) hx (fun y es hm => ext_ghostChildPass _ y es _ hm) hstep
+    rw [hv] at this
+    cases this
 end O2o
